@@ -331,6 +331,20 @@ class C12(object):
                     r.oracle_fail = 'copy does not reproduce the future draws of its source'
                 elif list(x) != list(z) and not self.near_boundary(cums, np.random.RandomState(seed).rand(k)):
                     r.oracle_fail = 'copy(base=%r) does not reproduce the future draws of its source' % (other,)
+                else:
+                    # every LATER draw too (Props/C12More `copy_draws`), and a draw advances the generator by exactly
+                    # the uniforms it handed out (`randN_add`): n, then m, then one = n + m + 1 at once
+                    x2, y2 = list(d.rand(size=3)) + [d.rand()], list(cp.rand(size=3)) + [cp.rand()]
+                    n_, m_ = 1 + seed % 4, 1 + (seed // 4) % 3
+                    g = np.random.RandomState(seed)
+                    seq = list(d.rand(size=n_, prng=g)) + list(d.rand(size=m_, prng=g)) + [d.rand(prng=g)]
+                    once = list(d.rand(size=n_ + m_ + 1, prng=np.random.RandomState(seed)))
+                    r.features.append('generator-sequential')
+                    if x2 != y2:
+                        r.oracle_fail = 'copy does not reproduce the later draws of its source (second batch %s vs %s)' % (x2, y2)
+                    elif seq != once:
+                        r.oracle_fail = ('rand(size=%d), rand(size=%d), rand() on one generator gave %s but rand(size=%d) from the '
+                                         'same state gave %s' % (n_, m_, seq, n_ + m_ + 1, once))
         # generators that are not RandomState objects
         if not r.oracle_fail:
             self.other_generators(case, d, lin, index, drv, r)
